@@ -252,6 +252,11 @@ def run_case(case, ctx):
             kind = S.KIND[fam][k]
             f = float(np.exp(rng.uniform(math.log(0.5), math.log(2.0))))
             start[k] = gen[k] * f if kind != "loc" else gen[k] + (f - 1.0) * max(1.0, abs(gen[k])) * 0.3
+        # user start values are meant to be plausible: a start under which the data are impossible (a location above
+        # the smallest observation: log-likelihood -inf) is replaced by the generating values
+        if not np.isfinite(loglik(fam, x, start)):
+            start = dict(gen)
+            ctx.count("c12.infeasible-perturbed-start-replaced")
     ctx.sig = f"{fam}|{[round(v, 5) for v in gen.values()]}|{n}|{case['start']}|{round(cfac, 4)}"
     slack = 1e-5 * n + 1e-3
     tau = 0.05 + 1e-4 * n
